@@ -284,7 +284,7 @@ func (g *Gen) place(x *CExpr, env *Env) (*Ptr, error) {
 		}
 		if bv.S == "Slice" && bv.Ty != nil {
 			el := types.Unalias(bv.Ty).Underlying().(*types.Slice).Elem()
-			return &Ptr{Kind: pElem, Arr: fmt.Sprintf("(sarr %s)", bv.T), Idx: fmt.Sprintf("(+ (soff %s) %s)", bv.T, iv.T), Ty: el}, nil
+			return &Ptr{Kind: pElem, Arr: fmt.Sprintf("(sarr %s)", bv.T), Idx: fmt.Sprintf("(idx$ (soff %s) %s)", bv.T, iv.T), Ty: el}, nil
 		}
 	}
 	return nil, fmt.Errorf("%s is not a location", x)
@@ -395,7 +395,7 @@ func (g *Gen) eval(x *CExpr, env *Env) (Val, error) {
 			}
 			srt := g.sortOf(el)
 			h := g.heapTerm(env.st, "HA$"+srt, "(Array Int (Array Int "+srt+"))")
-			return Val{T: fmt.Sprintf("(select (select %s (sarr %s)) (+ (soff %s) %s))", h, bv.T, bv.T, iv.T), S: srt, Ty: el}, nil
+			return Val{T: fmt.Sprintf("(select (select %s (sarr %s)) (idx$ (soff %s) %s))", h, bv.T, bv.T, iv.T), S: srt, Ty: el}, nil
 		case "Int":
 			if bv.Ty != nil {
 				if mt, ok := types.Unalias(bv.Ty).Underlying().(*types.Map); ok && !env.noHeap {
@@ -487,9 +487,21 @@ func (g *Gen) eval(x *CExpr, env *Env) (Val, error) {
 			vars[n] = Val{T: bn, S: srt, Ty: ty}
 			bs = append(bs, fmt.Sprintf("(%s %s)", bn, srt))
 		}
-		body, err := g.evalBool(x.Args[0], env.with(vars))
+		qenv := env.with(vars)
+		body, err := g.evalBool(x.Args[0], qenv)
 		if err != nil {
 			return Val{}, err
+		}
+		if len(x.Trig) > 0 {
+			var ts []string
+			for _, t := range x.Trig {
+				tv, err := g.eval(t, qenv)
+				if err != nil {
+					return Val{}, err
+				}
+				ts = append(ts, tv.T)
+			}
+			body = fmt.Sprintf("(! %s :pattern (%s))", body, strings.Join(ts, " "))
 		}
 		return Val{T: fmt.Sprintf("(%s (%s) %s)", x.Op, strings.Join(bs, " "), body), S: "Bool", Ty: types.Typ[types.Bool]}, nil
 	case "call":
